@@ -84,6 +84,16 @@ def r05a(rep, F, fns):
     rep.rule('R05a', 'on every CFG path of a counting validator\'s checkMotion exactly one of valid_/invalid_ is '
                      'bumped, valid_ iff the call returns true (path-sensitive typestate, tracked local verdict)')
     for fn in fns:
+        # every mention of a counter must be a recognised bump; anything else (bound to a reference, stored through
+        # store(load()+1), passed by address) is an idiom this rule does not model => analysis broken, not a verdict
+        bumps = set()
+        for n in fn.walk():
+            if counter_of(fn, n):
+                t = fn.strip(n['ch'][0])
+                bumps.add(t['id'])
+        for n in fn.walk():
+            if n['k'] == 'MemberExpr' and n.get('q') in (VALID, INVALID) and n['id'] not in bumps:
+                raise AnalysisBroken('R05a: %s uses %s other than by a direct increment (unrecognised idiom)' % (fn.name, n.get('name')))
         cl = CounterClient()
         paths.run_function(fn, cl, F)
         ords = ret_ordinals(fn)
